@@ -120,19 +120,6 @@ class Locus:
 
 
 
-    def set_sequence(self, fasta):
-
-        with pysam.FastaFile(fasta) as f:
-
-            sequence = f.fetch(self.contig, self.start, self.stop).upper()
-
-            locus = self.set(sequence=sequence)
-
-            if locus.variants:
-
-                locus.validate_reference_alleles()
-
-            return locus
 
 
 
@@ -383,3 +370,23 @@ class LocusPrior:
             snps.append(SNP(record.chrom, pos, pos + 1, '.', alleles=alleles))
 
         return cls(contig=record.chrom, start=record.start, stop=record.stop, name=record.id if record.id else '.', sequence=record.ref, variants=tuple(snps), alts=sequences[1:], frequencies=frequencies, mask_reference_allele=mask_reference_allele)
+
+
+class Locus:
+    def set_sequence(self, fasta):
+
+        with pysam.FastaFile(fasta) as f:
+
+            sequence = f.fetch(self.contig, self.start, self.stop).upper()
+
+            if len(sequence) != self.stop - self.start:
+
+                raise ValueError(f"Locus '{self.contig}:{self.start}-{self.stop}' extends beyond the reference sequence")
+
+            locus = self.set(sequence=sequence)
+
+            if locus.variants:
+
+                locus.validate_reference_alleles()
+
+            return locus
